@@ -214,9 +214,6 @@ fn nested_ref(ty: &syn::Type) -> bool {
 fn c08_glue(file: &syn::File) -> Option<proc_macro2::TokenStream> {
     let items = &file.items;
     let f = find_fn(items, "f").expect("generated import `f`");
-    if f.sig.inputs.iter().any(|a| matches!(a, syn::FnArg::Typed(pt) if nested_ref(&pt.ty))) {
-        return None;
-    }
     let guest = find_trait(items, "Guest").expect("generated trait `Guest`");
     let g = guest
         .items
@@ -226,6 +223,17 @@ fn c08_glue(file: &syn::File) -> Option<proc_macro2::TokenStream> {
             _ => None,
         })
         .expect("Guest::g");
+    // a reference below the top level of an import parameter needs a type-directed conversion
+    // from the export's owned value - unless the export parameter has the very same type (borrow
+    // handles: `Vec<&Thing>` on both sides)
+    let ty_str = |t: &syn::Type| t.to_token_stream().to_string().replace("'_", "").replace("'a", "").replace(' ', "");
+    for (fp, gp) in f.sig.inputs.iter().zip(g.sig.inputs.iter()) {
+        if let (syn::FnArg::Typed(fp), syn::FnArg::Typed(gp)) = (fp, gp) {
+            if nested_ref(&fp.ty) && ty_str(&fp.ty) != ty_str(&gp.ty) {
+                return None;
+            }
+        }
+    }
     // forwarding call: pass `&x` where the import takes a reference
     let mut call_args = vec![];
     for (fp, gp) in f.sig.inputs.iter().zip(g.sig.inputs.iter()) {
